@@ -234,6 +234,17 @@ pub fn apply_op(op: &Op, top: bool) {
                 }
                 arena::restore_ctx(prev);
             }
+            // a Weak taken from the still-uninit handle (half of the cases); it is
+            // the same allocation, so it is a Weak to the object once initialised
+            let early_weak: Option<Weak<Node>> = if (wd.layout_lo.get() >> 38) & 1 == 1 {
+                let prev = arena::set_ctx(CtxKind::Weak, id, 0);
+                let wu = lib(|| Rc::downgrade(&u));
+                arena::restore_ctx(prev);
+                let p = wu.into_raw() as *const Node;
+                Some(unsafe { Weak::from_raw(p) })
+            } else {
+                None
+            };
             let h: Rc<Node> = lib(|| unsafe { u.assume_init() });
             let addr = Rc::__verif_addr(&h);
             let vaddr = Rc::as_ptr(&h) as usize;
@@ -241,6 +252,9 @@ pub fn apply_op(op: &Op, top: bool) {
                 let mut m = wd.model.borrow_mut();
                 let got = m.new_obj(addr, vaddr, false);
                 assert_eq!(got, id);
+                if early_weak.is_some() {
+                    m.wroots.push(id);
+                }
                 m.objs[id as usize].slots.push(t);
                 m.add_rec(id, t);
                 if *loopback {
@@ -250,6 +264,10 @@ pub fn apply_op(op: &Op, top: bool) {
             }
             wd.addr2oid.borrow_mut().push((addr, id));
             wd.roots.borrow_mut().push(LoggedRc::new(h, id));
+            if let Some(wk) = early_weak {
+                wd.wroots.borrow_mut().push(LoggedWeak::new(wk, id));
+                label(lab::WEAK_BEFORE_ASSUME_INIT);
+            }
             label(lab::UNINIT_ADOPT);
             count(ctr::OBJECTS, 1);
         }
